@@ -182,6 +182,13 @@ def check_classes(model, rep):
                 # created on first append: must be recorded on every path
                 always = all(key in ks for _, ks in rec_paths)
                 rep.decide(always, 'C17.guards', cons, 'pwm is not recorded on every call of update_time_variables', loc=mu.loc)
+                # the sample is the motor's duty cycle itself (not a rounded or otherwise derived number): "the last sample equals the
+                # element's current attribute", and reset restores the attribute from the first sample
+                got = vals.get(key, set())
+                okv = bool(got) and all(v == 'self.pwm' or v.endswith('self.pwm') and not v.startswith('call:') and '(' not in v for v in got)
+                rep.decide(okv and key not in multiple, 'C17.one', cons,
+                           f'appends {sorted(got)} {"more than once per call" if key in multiple else ""}; specified one append of self.pwm',
+                           loc=mu.loc)
                 continue
             a_dnf = adv.get(key, [])
             r_dnf = rec.get(key, [])
